@@ -114,10 +114,73 @@ fn gen_bits_string(rng: &mut Rng, n: usize) -> String {
     }
 }
 
+/// Bit strings shaped after the select inventories (DArray: blocks of 1024 occurrences, dense when they span less
+/// than 65 536 bits, subblocks of 32): 1..4 blocks, each with a chosen number of occurrences and a chosen span,
+/// the last one possibly partial. With `invert` the roles of ones and zeros are swapped (select0 inventories).
+pub fn gen_inventory_shaped_bits(rng: &mut Rng) -> String {
+    let blocks = rng.urange(1, 4);
+    let invert = rng.chance(1, 3);
+    let mut ones: Vec<usize> = vec![];
+    let mut cursor = rng.usize_below(70);
+    for b in 0..blocks {
+        let last = b + 1 == blocks;
+        let cnt: usize = if last {
+            match rng.below(8) {
+                0 => 1024,
+                1 => 1,
+                2 => *rng.pick(&[31usize, 32, 33, 63, 64, 65]),
+                3 => 32 * rng.urange(1, 31) + 1,
+                4 => 1023,
+                5 => 32 * rng.urange(1, 31),
+                _ => rng.urange(2, 1023),
+            }
+        } else {
+            1024
+        };
+        let span = (*rng.pick(&[cnt, cnt + 1, 2 * cnt, 40_000, 65_535, 65_536, 65_537, 66_000, 100_000])).max(cnt);
+        let first = cursor;
+        let lastp = first + span - 1;
+        if cnt == 1 {
+            ones.push(first);
+            cursor = first + 1 + rng.usize_below(100);
+            continue;
+        }
+        // first and last occurrence fix the span; the others are spread evenly or packed at one end
+        let packed = rng.chance(1, 3);
+        for j in 0..cnt {
+            let p = if j == 0 {
+                first
+            } else if j == cnt - 1 {
+                lastp
+            } else if packed {
+                first + j
+            } else {
+                first + j * (span - 1) / (cnt - 1)
+            };
+            ones.push(p);
+        }
+        cursor = lastp + 1 + rng.usize_below(100);
+    }
+    ones.dedup();
+    let n = cursor + rng.usize_below(3);
+    let (fill, mark) = if invert { ('1', '0') } else { ('0', '1') };
+    let mut v: Vec<char> = vec![fill; n];
+    for p in ones {
+        if p < n {
+            v[p] = mark;
+        }
+    }
+    v.into_iter().collect()
+}
+
 /// Large values next to the boundaries small ones cannot reach (65 536 elements / bits, sparse DArray blocks,
 /// several select samples and hints).
 fn gen_big_spec(rng: &mut Rng, tier: Tier) -> Spec {
-    match rng.below(3) {
+    match rng.below(4) {
+        3 => Spec::Bits {
+            kind: *rng.pick(&[Flat::DArray, Flat::DArray0, Flat::DArray, Flat::DArray0, Flat::RSNarrow, Flat::RSWide]),
+            bits: gen_inventory_shaped_bits(rng),
+        },
         0 => {
             let alias = *rng.pick(&ALL_TREES);
             let ty = *rng.pick(&ALL_TYS);
